@@ -3,56 +3,71 @@
    allow (a SpinLock is unlocked by its holder, a RefResource is cleaned by a holder of a reference), every
    interleaving of starts, linearization points, callbacks and ends.  Checked exhaustively for every kind for small
    constants: the classic consequences hold (mutual exclusion, exactly one winner, the clean function runs
-   once, one generation per breakage) and no action is dead.
+   once, one generation per breakage, no Add is lost, a waiter on Done() returns only after Close) and no
+   action is dead.
 
-   OneAtATime = TRUE: one call at a time; the history of completed calls [op, a, b, res] is kept in hist and printed
-   once per distinct (object state, last two calls) -- the sequential histories the Go driver replays.        *)
+   OneAtATime = TRUE: one call at a time (the processes take turns); the history of completed calls
+   [p, op, a, b, res] is kept in hist and printed once per distinct (object state, ownership, last call -- last two
+   calls for the kinds in Deep, whose calls leave more behind than the state shows: a lock left locked, ...) --
+   the sequential histories the Go driver replays.                                                            *)
 EXTENDS Atomics, Json
 
 CONSTANTS KSet, Procs, MaxOps, OneAtATime, Emit
+Deep == {"spin", "done", "barrier", "ref", "managed"}
 
 VARIABLES
+  s0,     \* the initial value (abool / adur / afloat)
   nops,   \* calls started so far
   own,    \* ghost: spin: processes holding the lock; ref: process |-> references held; others: unused
-  wins,   \* ghost: once: successful takes; managed: MarkBroken calls that hit; others: unused
+  wins,   \* ghost: once: successful takes; managed: MarkBroken calls that hit; afloat: sum of the Adds that took effect
+          \*        since the last Set / successful CompareAndSwap, plus that value; others: unused
   hist, last
 
-mvars == <<avars, nops, own, wins, hist, last>>
+mvars == <<avars, s0, nops, own, wins, hist, last>>
 
 Own0(k) == IF k = "ref" THEN [p \in Procs |-> 0] ELSE {}
-MInit == \E k \in KSet : AStart(k, St0(k)) /\ nops = 0 /\ own = Own0(k) /\ wins = 0 /\ hist = <<>> /\ last = <<>>
+S0s(k) == IF k = "abool" THEN {0, 1} ELSE IF k \in {"adur", "afloat"} THEN {1} ELSE {0}
+MInit == \E k \in KSet : \E v \in S0s(k) :
+           /\ AStart(k, St0(k, v)) /\ s0 = v /\ nops = 0 /\ own = Own0(k)
+           /\ wins = (IF k = "afloat" THEN v ELSE 0) /\ hist = <<>> /\ last = <<>>
 
-Args(op) ==
-  CASE op = "cas" -> {<<0, 0>>, <<0, 1>>, <<1, 0>>, <<1, 1>>}
-    [] op = "set" -> {<<0, 0>>, <<1, 0>>}
+Args(k, op) ==
+  CASE k = "abool" /\ op = "cas" -> {<<0, 0>>, <<0, 1>>, <<1, 0>>, <<1, 1>>}
+    [] k = "abool" /\ op = "set" -> {<<0, 0>>, <<1, 0>>}
+    [] k \in {"adur", "afloat"} /\ op = "cas" -> {<<1, 2>>, <<2, 1>>, <<2, 2>>, <<3, 0>>}
+    [] k \in {"adur", "afloat"} /\ op = "set" -> {<<2, 0>>, <<0, 0>>}
+    [] op = "add" -> {<<1, 0>>, <<2, 0>>}
     [] op = "broken" -> {<<i, 0>> : i \in 0..MaxOps}
     [] OTHER -> {<<0, 0>>}
 
 MayCall(p, op) ==
   CASE kind = "spin" -> IF op = "unlock" THEN p \in own ELSE p \notin own
     [] kind = "ref" -> IF op = "clean" THEN own[p] > 0 \/ st.cleaned ELSE TRUE
-    [] kind = "managed" -> TRUE
     [] OTHER -> TRUE
 
 CallStart(p) ==
   /\ nops < MaxOps /\ (OneAtATime => pend = EmptyFn)
-  /\ \E op \in Ops(kind) : \E ab \in Args(op) :
+  /\ \E op \in Ops(kind) : \E ab \in Args(kind, op) :
        /\ MayCall(p, op) /\ (op = "broken" => ab[1] \in aux \cup {0})
        /\ CallStartOK(p, op) /\ CallStartEff(p, op, ab[1], ab[2])
        /\ own' = CASE kind = "spin" /\ op = "unlock" -> own \ {p}
                    [] kind = "ref" /\ op = "clean" /\ own[p] > 0 -> [own EXCEPT ![p] = @ - 1]
                    [] OTHER -> own
-  /\ nops' = nops + 1 /\ UNCHANGED <<wins, hist, last>>
+  /\ nops' = nops + 1 /\ UNCHANGED <<s0, wins, hist, last>>
 
 Lin(p) ==
   /\ LinOK(p) /\ LinEff(p)
-  /\ wins' = IF kind = "managed" /\ pend[p].op = "broken" /\ st = pend[p].a /\ st # 0 THEN wins + 1 ELSE wins
-  /\ UNCHANGED <<nops, own, hist, last>>
+  /\ wins' = CASE kind = "managed" /\ pend[p].op = "broken" /\ st = pend[p].a /\ st # 0 -> wins + 1
+               [] kind = "afloat" /\ pend[p].op = "add" -> wins + pend[p].a
+               [] kind = "afloat" /\ pend[p].op = "set" -> pend[p].a
+               [] kind = "afloat" /\ pend[p].op = "cas" /\ st = pend[p].a -> pend[p].b
+               [] OTHER -> wins
+  /\ UNCHANGED <<s0, nops, own, hist, last>>
 
-Enter(p) == EnterOK(p) /\ EnterEff(p) /\ UNCHANGED <<nops, own, wins, hist, last>>
-Exit(p) == \E out \in {"ret", "panic"} : ExitOK(p, out) /\ ExitEff(p, out) /\ UNCHANGED <<nops, own, wins, hist, last>>
-CleanRun(p) == CleanRunOK(p) /\ CleanRunEff(p) /\ UNCHANGED <<nops, own, wins, hist, last>>
-Gen(p) == GenOK(p, Cardinality(aux) + 1) /\ GenEff(p, Cardinality(aux) + 1) /\ UNCHANGED <<nops, own, wins, hist, last>>
+Enter(p) == EnterOK(p) /\ EnterEff(p) /\ UNCHANGED <<s0, nops, own, wins, hist, last>>
+Exit(p) == \E out \in {"ret", "panic"} : ExitOK(p, out) /\ ExitEff(p, out) /\ UNCHANGED <<s0, nops, own, wins, hist, last>>
+CleanRun(p) == CleanRunOK(p) /\ CleanRunEff(p) /\ UNCHANGED <<s0, nops, own, wins, hist, last>>
+Gen(p) == GenOK(p, Cardinality(aux) + 1) /\ GenEff(p, Cardinality(aux) + 1) /\ UNCHANGED <<s0, nops, own, wins, hist, last>>
 
 CallEnd(p) ==
   /\ p \in DOMAIN pend /\ CallEndOK(p, pend[p].res) /\ CallEndEff(p)
@@ -60,10 +75,12 @@ CallEnd(p) ==
               [] kind = "ref" /\ pend[p].op = "use" /\ pend[p].res = 0 -> [own EXCEPT ![p] = @ + 1]
               [] OTHER -> own
   /\ wins' = IF kind = "once" /\ pend[p].op = "take" /\ pend[p].res = 1 THEN wins + 1 ELSE wins
-  /\ last' = (LET t == <<pend[p].op, pend[p].a, pend[p].b, pend[p].res>>
-               IN IF ~OneAtATime THEN <<t>> ELSE IF Len(last) = 0 THEN <<t>> ELSE <<last[Len(last)], t>>)
-  /\ hist' = IF OneAtATime THEN Append(hist, [op |-> pend[p].op, a |-> pend[p].a, b |-> pend[p].b, res |-> pend[p].res]) ELSE hist
-  /\ UNCHANGED nops
+  /\ last' = (LET t == <<p, pend[p].op, pend[p].a, pend[p].b, pend[p].res>>
+               IN IF OneAtATime /\ kind \in Deep /\ Len(last) > 0 THEN <<last[Len(last)], t>> ELSE <<t>>)
+  /\ hist' = IF OneAtATime
+               THEN Append(hist, [p |-> p, op |-> pend[p].op, a |-> pend[p].a, b |-> pend[p].b, res |-> pend[p].res])
+               ELSE hist
+  /\ UNCHANGED <<s0, nops>>
 
 MNext == \E p \in Procs : CallStart(p) \/ Lin(p) \/ Enter(p) \/ Exit(p) \/ CleanRun(p) \/ Gen(p) \/ CallEnd(p)
 MSpec == MInit /\ [][MNext]_mvars
@@ -76,8 +93,11 @@ RefCount == (kind = "ref" /\ pend = EmptyFn /\ ~st.cleaned) =>
                st.ref = (LET S[Q \in SUBSET Procs] == IF Q = {} THEN 0 ELSE LET x == CHOOSE x \in Q : TRUE IN own[x] + S[Q \ {x}]
                          IN S[Procs])
 OnePerBreakage == kind = "managed" => Cardinality(aux) <= wins + 1
-DoneSticks == kind = "done" => st \in {0, 1}
+NoLostAdd == kind = "afloat" => st = wins
+DoneSticks == kind = "done" => /\ st \in {0, 1}
+                               /\ \A p \in DOMAIN pend : (pend[p].op = "wait" /\ pend[p].lin) => st = 1
 
-View == <<avars, last, IF OneAtATime THEN 0 ELSE nops, own, IF kind = "managed" THEN 0 ELSE wins>>
-PrintHist == (Emit /\ OneAtATime /\ pend = EmptyFn /\ Len(hist) > 0) => PrintT("TRACE " \o ToJson([kind |-> kind, ops |-> hist]))
+View == <<avars, last, IF OneAtATime THEN 0 ELSE nops, own, IF kind \in {"managed", "afloat"} THEN 0 ELSE wins>>
+PrintHist == (Emit /\ OneAtATime /\ pend = EmptyFn /\ Len(hist) > 0) =>
+               PrintT("TRACE " \o ToJson([kind |-> kind, s0 |-> s0, ops |-> hist]))
 =============================================================================
